@@ -80,9 +80,22 @@ def translator_step(ctx):
     return dict(obligations=nobl, discharged=ok, problems=problems)
 
 
+def _km_update_timeout(case, code):
+    # the one published preset key zrnt's structs have no field for; already excluded from the struct-count
+    # comparison in Config/SpecConstants.v (not_in_struct), so this can only match a case naming exactly it
+    return bool(case) and case.get("field") == "UPDATE_TIMEOUT"
+
+
+def _km_fulu_block_type(case, code):
+    # a Fulu epoch whose digest the allocator refuses (there is no Fulu block type in the repository)
+    return bool(case) and case.get("fn") == "ForkDecoder.ForkDigest+BlockAllocator" and case.get("spec_fork") == "fulu" \
+        and str(case.get("go_block_type", "")).startswith("error: unrecognized fork digest") and not (code & 1)
+
+
 def make_check():
     return verif.Check(
         "C14",
+        known_match={"preset_key_without_struct_field": _km_update_timeout, "fulu_digest_has_no_block_type": _km_fulu_block_type},
         make_targets=["Properties/C14.vo", "Config/ConfigRun.vo", "Config/GoShapes.vo"],
         pre_steps=[translator_step],
         trust=[
